@@ -94,10 +94,17 @@ def class_vars(self):
     return field(gc_of(self), "_class_vars")
 
 
+uninterpreted("cpp_ident", [Str], Str)
+contract(TR + "cpp_identifier_from", assumed=True, pure_fn="cpp_ident", params=dict(name=Str), result=Str,
+         note="DEFINITION of the ghost function cpp_ident: the column name with every character that cannot appear in a C++ identifier replaced by '_' "
+              "(re.sub over str: outside the encoding; that the result consists of identifier characters only, has the length of the name and is the "
+              "name itself when that is an identifier already is checked exhaustively on the real helper for short strings, checks/c03.py)")
+
+
 def column_var_ok(pair, name):
-    "the storage of one column: a fresh class-level variable named after the column"
+    "the storage of one column: a fresh class-level variable named after the column (made an identifier); the branch keeps the column's own name"
     return (pair[0] == name and pair[1] != None and cls_is(pair[1], "func_adl_xAOD.common.cpp_representation.cpp_variable") and
-            startswith(expr_of(pair[1]), "_" + name) and field(pair[1], "_initial_value") == None and type_of(pair[1]) != None)
+            startswith(expr_of(pair[1]), "_" + cpp_ident(name)) and field(pair[1], "_initial_value") == None and type_of(pair[1]) != None)
 
 
 RT_COLS = [("L.columns", "all(column_var_ok(var_names[k], column_names[k]) for k in range(0, len(var_names)))"),
@@ -131,7 +138,9 @@ RT_CLEAR = [
 ]
 RT_INV = CVC_LOOP_INV
 
-contract(TR + "query_ast_visitor.call_ResultTTree", props=["C03", "C05", "C09", "C02"], replay="ttree_label_mismatch",
+contract(TR + "query_ast_visitor.call_ResultTTree", props=["C03", "C05", "C09", "C02", "C18"],
+         replay={"label_count": "ttree_label_mismatch", "tree_and_column_names_are_string_literals": "tree_and_column_names",
+                 "one_variable_per_column": "tree_and_column_names"},
          params=dict(self=QV, node=RefOf("ast.Call"), args=TList(Ref)), result=REP,
          requires=CVC_REQUIRES + [("args", "all(a != None and live(a) for a in args)"),
                                   ("cursor", "len(cursor(self)) >= 1 and all(b != None and live(b) for b in cursor(self))"),
@@ -151,6 +160,8 @@ contract(TR + "query_ast_visitor.call_ResultTTree", props=["C03", "C05", "C09", 
                                                        "g_book = field(field(gc_of(self), '_book_block'), '_statements')[g_bk0]"]},
          ensures=CVC_ENSURES + [
              ("label_count@C03,C09", "len(col_values(final_seq_values)) == len(final_column_names)"),
+             ("tree_and_column_names_are_string_literals@C18,C03", "cxx_string_ok(final_tree_name) and "
+                                                                   "all(cxx_string_ok(final_column_names[k]) for k in range(0, len(final_column_names)))"),
              ("one_variable_per_column@C03,C02", "len(final_var_names) == len(final_column_names) and "
                                                  "all(column_var_ok(final_var_names[k], final_column_names[k]) for k in range(0, len(final_var_names)))"),
              ("columns_are_class_members@C03,C02", "len(class_vars(self)) >= final_g_cv0 + len(final_var_names) and "
@@ -175,11 +186,12 @@ contract(TR + "query_ast_visitor.call_ResultTTree", props=["C03", "C05", "C09", 
                               needs={"L.built": ["L.built", "L.len"]},
                               invariant=RT_INV + [("L.len", "len(_comp1) == _i and _i <= len(column_names)"),
                                                   ("L.built", "all(column_var_ok(_comp1[k], column_names[k]) for k in range(0, _i))")]),
-                1: dict(modifies=["_class_vars"], needs={"L.columns": ["L.built", "L.len"], "L.count": ["L.len"]},
+                1: dict(modifies=[], invariant=[("L.literal_names", "cxx_string_ok(tree_name) and all(cxx_string_ok(column_names[k]) for k in range(0, _i))")]),
+                2: dict(modifies=["_class_vars"], needs={"L.columns": ["L.built", "L.len"], "L.count": ["L.len"]},
                         invariant=RT_INV + RT_COLS + [("L.appended", "len(class_vars(self)) == g_cv0 + _i and "
                                                                       "all(class_vars(self)[q] == var_names[q - g_cv0][1] for q in range(g_cv0, g_cv0 + _i))")]),
-                2: dict(modifies=CVC_MODIFIES, invariant=RT_INV + RT_COLS + RT_MEMBERS + RT_BOOK + [("L.book", "field(gc_of(self), '_book_block') == old(field(gc_of(self), '_book_block'))")]),
-                3: dict(modifies=["_statements"], ghost_mods=["g_src", "g_clr"], invariant=RT_INV + RT_COLS + RT_MEMBERS + RT_BOOK + RT_CLEAR)})
+                3: dict(modifies=CVC_MODIFIES, invariant=RT_INV + RT_COLS + RT_MEMBERS + RT_BOOK + [("L.book", "field(gc_of(self), '_book_block') == old(field(gc_of(self), '_book_block'))")]),
+                4: dict(modifies=["_statements"], ghost_mods=["g_src", "g_clr"], invariant=RT_INV + RT_COLS + RT_MEMBERS + RT_BOOK + RT_CLEAR)})
 
 # ---- per-backend booking / fill statement factories: one virtual contract, every override verified against it -------
 BOOKT = "func_adl_xAOD.common.statement.book_ttree"
